@@ -10,6 +10,10 @@
 (*                               outbound batch)                                        *)
 (*   reject (id)                 Tell returned an error to the caller                   *)
 (*   handled (id)                the target's handler completed the message             *)
+(*   accept carries k = tell | ask | req (ctx.Request: AsyncRequest envelope) | remote  *)
+(*   | batch (member of a failed outbound batch; members have different senders)          *)
+(*   deadt (id)                  the dead letter an Ask files when it gives up (reason     *)
+(*                               "request timed out"): counted, but not a drop             *)
 (*   dead (id, snd, rcv)         a Deadletter event arrived at the event-stream         *)
 (*                               subscriber (id read from the carried message)          *)
 (*   count (id = total since New, n = count reported for the target, -1 = not asked)    *)
@@ -21,10 +25,10 @@ EXTENDS Integers, Sequences, FiniteSets, TLC, Json
 
 Trace == ndJsonDeserialize("trace.ndjson")
 
-VARIABLES l, acc, handled, deads
-vars == <<l, acc, handled, deads>>
+VARIABLES l, acc, handled, deads, tdeads
+vars == <<l, acc, handled, deads, tdeads>>
 
-Init == l = 1 /\ acc = {} /\ handled = <<>> /\ deads = <<>>
+Init == l = 1 /\ acc = {} /\ handled = <<>> /\ deads = <<>> /\ tdeads = <<>>
 
 Bad(what, id) == PrintT(<<"MISMATCH", "C18", l, what, id>>)
 Check(cond, what, id) == IF cond THEN TRUE ELSE Bad(what, id)
@@ -36,15 +40,16 @@ Step ==
   /\ l <= Len(Trace)
   /\ l' = l + 1
   /\ LET e == Trace[l] IN
-     CASE e.ev = "New" -> acc' = {} /\ handled' = <<>> /\ deads' = <<>>
-       [] e.ev = "accept" -> acc' = acc \cup {[id |-> e.id, snd |-> e.snd, rcv |-> e.rcv]} /\ UNCHANGED <<handled, deads>>
-       [] e.ev = "handled" -> handled' = Append(handled, e.id) /\ UNCHANGED <<acc, deads>>
-       [] e.ev = "dead" -> deads' = Append(deads, [id |-> e.id, snd |-> e.snd, rcv |-> e.rcv]) /\ UNCHANGED <<acc, handled>>
+     CASE e.ev = "New" -> acc' = {} /\ handled' = <<>> /\ deads' = <<>> /\ tdeads' = <<>>
+       [] e.ev = "accept" -> acc' = acc \cup {[id |-> e.id, snd |-> e.snd, rcv |-> e.rcv, k |-> e.k]} /\ UNCHANGED <<handled, deads, tdeads>>
+       [] e.ev = "handled" -> handled' = Append(handled, e.id) /\ UNCHANGED <<acc, deads, tdeads>>
+       [] e.ev = "dead" -> deads' = Append(deads, [id |-> e.id, snd |-> e.snd, rcv |-> e.rcv]) /\ UNCHANGED <<acc, handled, tdeads>>
+       [] e.ev = "deadt" -> tdeads' = Append(tdeads, e.id) /\ UNCHANGED <<acc, handled, deads>>
        [] e.ev = "count" ->
-            /\ Check(e.id = Len(deads), "the system's dead-letter count differs from the number of dead letters published", e.id - Len(deads))
+            /\ Check(e.id = Len(deads) + Len(tdeads), "the system's dead-letter count differs from the number of dead letters published", e.id - Len(deads) - Len(tdeads))
             /\ Check(e.n = -1 \/ e.n = Cardinality({i \in 1..Len(deads) : deads[i].rcv = "T"}),
                      "the target's dead-letter count differs from the number of dead letters published for it", e.n)
-            /\ UNCHANGED <<acc, handled, deads>>
+            /\ UNCHANGED <<acc, handled, deads, tdeads>>
        [] e.ev = "End" ->
             /\ \A a \in acc :
                  /\ Check(e.id # 1 \/ NDead(a.id) + NHandled(a.id) >= 1, "an accepted message was neither handled nor published as a dead letter", a.id)
@@ -53,10 +58,13 @@ Step ==
                  /\ Check(NHandled(a.id) <= 1, "a message was handled twice", a.id)
             /\ \A i \in 1..Len(deads) :
                  /\ Check(deads[i].id \in AccIds, "a dead letter carries a message the runtime never accepted", deads[i].id)
-                 /\ Check(deads[i].id \notin AccIds \/ [id |-> deads[i].id, snd |-> deads[i].snd, rcv |-> deads[i].rcv] \in acc,
+                 /\ Check(deads[i].id \notin AccIds \/ \E a \in acc : a.id = deads[i].id /\ a.snd = deads[i].snd /\ a.rcv = deads[i].rcv,
                           "a dead letter does not carry the original sender and receiver", deads[i].id)
-            /\ UNCHANGED <<acc, handled, deads>>
-       [] OTHER -> UNCHANGED <<acc, handled, deads>>
+            /\ \A i \in 1..Len(tdeads) :
+                 /\ Check(\E a \in acc : a.id = tdeads[i] /\ a.k = "ask", "a time-out dead letter for a message that was not sent with Ask", tdeads[i])
+                 /\ Check(Cardinality({j \in 1..Len(tdeads) : tdeads[j] = tdeads[i]}) = 1, "an Ask filed its time-out dead letter more than once", tdeads[i])
+            /\ UNCHANGED <<acc, handled, deads, tdeads>>
+       [] OTHER -> UNCHANGED <<acc, handled, deads, tdeads>>
 
 Spec == Init /\ [][Step]_vars
 =============================================================================
